@@ -30,6 +30,7 @@ partial def vOfJson (j : Json) : Except String V :=
     else if let .ok s := j.getObjValAs? String "ty" then .ok (.ty s)
     else if let .ok n := j.getObjValAs? Nat "vars" then .ok (.vars n)
     else if let .ok (_ : Nat) := j.getObjValAs? Nat "gen" then .ok (.stream [])
+    else if let .ok k := j.getObjValAs? String "specobj" then .ok (.specobj k)
     else .error s!"bad V {j.compress}"
   | _ => .error s!"bad V {j.compress}"
 where
@@ -55,6 +56,7 @@ partial def vToJson : V → Json
   | .ty s => Json.mkObj [("ty", s)]
   | .vars n => Json.mkObj [("vars", n)]
   | .stream _ => Json.mkObj [("gen", (0 : Nat))]   -- an unconsumed generator: opaque on both sides
+  | .specobj k => Json.mkObj [("specobj", k)]
 
 def arr (j : Json) (k : String) : Except String (List Json) :=
   match j.getObjVal? k with
@@ -92,6 +94,11 @@ partial def specOfJson (j : Json) : Except String Spec := do
       | .arr #[.str op, v] => do return (op, ← vOfJson v)
       | _ => throw s!"bad step {e.compress}")
   let str (f : String) : Except String String := j.getObjValAs? String f
+  -- an optional flag of the *input*: absent / null = false, anything but a Bool is an error
+  let optBool (f : String) : Except String Bool := match optField j f with
+    | none => pure false
+    | some (.bool b) => pure b
+    | some o => throw s!"bad flag {f}: {o.compress}"
   match k with
   | "str" => return .str (← str "s")
   | "lit" =>
@@ -164,7 +171,11 @@ partial def specOfJson (j : Json) : Except String Spec := do
   | "not" => return .not (← sub "c")
   | "switch" => return .switch (← pairs "cases") (← optSub "dflt")
   | "probe" => return .probe (← j.getObjValAs? Nat "id")
-  | "iter" => return .iter (← sub "s") ((j.getObjValAs? Bool "map").toOption.getD false)
+  | "iter" => return .iter (← sub "s") (← optBool "map")
+  | "optKey" => return .optKey (← vOfJson (← j.getObjVal? "v"))
+  | "reqKey" => return .reqKey (← sub "s")
+  | "reenter" => return .reenter (← optBool "via_spec") (← sub "s")
+  | "rprobe" => return .rprobe (← j.getObjValAs? Nat "id") (← sub "s")
   | "inspect" =>
     -- Inspect(s, echo=…, recursive=…, breakpoint=bp, post_mortem=pm): what is echoed is not observed;
     -- `recursive` only matters together with a callback (every nested evaluation would call it)
@@ -174,7 +185,7 @@ partial def specOfJson (j : Json) : Except String Spec := do
       | none => pure none
     let bp ← cb "bp"
     let pm ← cb "pm"
-    if (j.getObjValAs? Bool "recursive").toOption.getD false && (bp.isSome || pm.isSome) then
+    if (← optBool "recursive") && (bp.isSome || pm.isSome) then
       throw "Inspect(recursive=True) with callbacks is not modelled"
     return .inspect (← sub "s") bp pm
   | _ => throw s!"unknown spec kind {k}"
@@ -222,6 +233,7 @@ def typeName : V → String
   | .dict false _ => "dict" | .dict true _ => "OrderedDict"
   | .set false _ => "set" | .set true _ => "frozenset"
   | .fn .. => "function" | .ty _ => "type" | .vars _ => "ScopeVars" | .stream _ => "generator"
+  | .specobj k => k
 
 def isinstance (v : V) (n : String) : Bool :=
   n == "object" || typeName v == n ||
@@ -232,7 +244,13 @@ def isinstance (v : V) (n : String) : Bool :=
 
 def e (c : String) : Err := ⟨c⟩
 
+/-- an object of the spec handed on as it is: what it holds is not part of the model -/
+def isOpaque : V → Bool
+  | .specobj _ => true
+  | _ => false
+
 def iterate : V → Except Err (List V)
+  | .specobj _ => .error (e "Unsupported")
   | .list xs | .tuple xs | .stream xs => .ok xs
   -- the iteration order of a set with several elements is CPython's business: outside the modelled domain
   | .set _ xs => if xs.length ≤ 1 then .ok xs else .error (e "Unsupported")
@@ -255,6 +273,7 @@ def seqIndex (xs : List V) (i : Int) : Option V :=
 
 def getSeg (cur : V) (seg : String) : Except Err V :=
   match cur with
+  | .specobj _ => .error (e "Unsupported")
   | .dict _ es => match es.find? (fun p => veq p.1 (.str seg)) with
     | some (_, v) => .ok v
     | none => .error (e "KeyError")
@@ -301,11 +320,14 @@ def tStep (cur : V) (op : String) (arg : V) : Option V :=
   | _ => none
 
 def tEval (steps : List (String × V)) (v : V) : Except Err V :=
+  if isOpaque v && !steps.isEmpty then .error (e "Unsupported") else
   match steps.foldlM (fun cur s => tStep cur s.1 s.2) v with
   | some r => .ok r
   | none => .error (e "PathAccessError")
 
 def applyFn (kind : String) (args : List V) (kwargs : List (String × V)) : Except Err V :=
+  if args.any isOpaque && !(["pack", "id", "wrap", "const7", "raise_ve", "raise_glom", "raise_multiline"].contains kind) then
+    .error (e "Unsupported") else
   match kind, args with
   | "pack", as =>
     let kws := (kwargs.toArray.qsort (fun a b => a.1 < b.1)).toList
@@ -359,6 +381,7 @@ def pyIter : V → Except Err (List V)
   | v => (iterate v).mapError (fun er => if er.cls == "Unsupported" then er else e "TypeError")
 
 def applyTy (n : String) (v : V) : Except Err V :=
+  if isOpaque v then .error (e "Unsupported") else
   match n with
   | "list" => (pyIter v).map V.list
   | "tuple" => (pyIter v).map V.tuple
@@ -389,5 +412,7 @@ def modeName : Mode → String
 def evToJson : Ev → Json
   | .call n as => Json.mkObj [("call", n), ("args", Json.arr (as.map vToJson).toArray)]
   | .probe id m => Json.mkObj [("probe", id), ("mode", modeName m)]
+  | .read id (.ok v) => Json.mkObj [("read", id), ("ok", vToJson v)]
+  | .read id (.error e) => Json.mkObj [("read", id), ("err", e.cls)]
 
 end Glom.Interp.Codec
